@@ -144,4 +144,7 @@ def subs(tier):
             doc='dump_to_file -> load_from_file for None/gzip/zstd, 0 objects .. several 64 KiB chunks, path / custom open_obj'),
         Sub('memory', check_memory, gen=lambda: case_gen(files=False), examples={'quick': 800, 'thorough': 60000},
             doc='dump -> line.unframe -> load in memory'),
-    ]
+    ] + ([] if tier != 'thorough' else [
+        Sub('fuzz', check_memory, fuzz='c19', fuzz_runs={'thorough': 480000},
+            doc='atheris/libFuzzer campaign on the in-memory dump -> unframe -> load path'),
+    ])
